@@ -194,7 +194,10 @@ def rule_same_value(ctx: Ctx, rule: str = "C01.3") -> None:
     bu, fe = v.left.id, v.right.id
     fills = [c for c in A.func_calls(po) if (A.call_name(c) or "").endswith(".add_fill")]
     ups = [c for c in A.func_calls(po) if (A.call_name(c) or "") == "self._update_balances"]
-    ctx.require(len(fills) == 1 and len(ups) == 1, f"{rule}: expected one add_fill and one _update_balances in _process_order")
+    ctx.require(len(fills) == 1 and len(ups) >= 1, f"{rule}: expected one add_fill and an _update_balances in _process_order")
+    ctx.check(len(ups) == 1, rule, "a fill (amounts and fees) reaches the account as ONE all-or-nothing update", po, ups[-1],
+              "one _update_balances call", f"{len(ups)} account updates for one fill: when a later one is refused (NotEnoughBalance) the earlier "
+              "ones stay applied while the order is treated as not filled: the balance moved with no fill or fee on record", key_text="one update per fill")
     af = fills[0]
     ctx.check(len(af.args) == 3 and A.dotted(af.args[1]) == bu and A.dotted(af.args[2]) == fe, rule,
               "the order records exactly the fill and fees that were applied", po, af, f"add_fill(when, {bu}, {fe}); applied {bu} + {fe}",
